@@ -160,13 +160,19 @@ def findlabels_pre_310(code, opc):
 NO_LINE_NUMBER = -128
 
 
-def findlinestarts(code, dup_lines=False, signed_line_delta=True):
+def findlinestarts(
+    code, dup_lines=False, signed_line_delta=True, stop_at_code_end=True
+):
     """Find the offsets in a byte code which are start of lines in the source.
 
     Generate pairs (offset, lineno) as described in Python/compile.c.
 
     Line-number deltas in ``co_lnotab`` are unsigned bytes before Python 3.6
     and signed bytes from 3.6 on; pass ``signed_line_delta=False`` for the former.
+
+    From 3.8 on ``dis.findlinestarts`` ignores ``co_lnotab`` entries at or
+    past the end of the bytecode; before that it reports them. Pass
+    ``stop_at_code_end=False`` for the older behavior.
     """
 
     if hasattr(code, "co_lines"):
@@ -210,7 +216,7 @@ def findlinestarts(code, dup_lines=False, signed_line_delta=True):
                         lastlineno = lineno
                         pass
                     offset += byte_incr
-                    if offset >= bytecode_len:
+                    if stop_at_code_end and offset >= bytecode_len:
                         # The rest of the ``lnotab byte offsets are past the end of
                         # the bytecode; any line numbers for these have been removed.
                         return
@@ -228,7 +234,15 @@ def findlinestarts(code, dup_lines=False, signed_line_delta=True):
 def findlinestarts_unsigned(code, dup_lines=False):
     """findlinestarts() for bytecode before Python 3.6, where ``co_lnotab``
     line-number deltas are unsigned bytes."""
-    return findlinestarts(code, dup_lines=dup_lines, signed_line_delta=False)
+    return findlinestarts(
+        code, dup_lines=dup_lines, signed_line_delta=False, stop_at_code_end=False
+    )
+
+
+def findlinestarts_pre38(code, dup_lines=False):
+    """findlinestarts() for 3.6 and 3.7: signed line-number deltas, and
+    ``co_lnotab`` entries at the end of the bytecode are still reported."""
+    return findlinestarts(code, dup_lines=dup_lines, stop_at_code_end=False)
 
 
 def instruction_size(op, opc):
